@@ -105,6 +105,37 @@ def ev_rebase(w, src, author=AUTHOR):
     _scratch(w, fn, author)
 
 
+def ev_merge_dst(w, src, author=AUTHOR):
+    """The developer merges the destination branch into the source branch
+    and resolves the conflict: a merge commit (source tip, destination tip)
+    whose tree is the source's plus the destination's other files."""
+    dst = pr_of_src(w, src).destination['branch']['name']
+    refs = w.refs()
+    stip, dtip = refs[src], refs[dst]
+    idx = os.path.join(w.tmp, 'idx.%d' % os.getpid())
+    if os.path.exists(idx):
+        os.unlink(idx)
+    env = dict(w.user_env(author), GIT_INDEX_FILE=idx)
+    # destination tree first, then the source's own files on top ("ours")
+    w.git('read-tree', dtip, env=env)
+    base = w.git('merge-base', stip, dtip)
+    for line in w.git('diff-tree', '-r', '--no-commit-id', base,
+                      stip).splitlines():
+        meta, path = line.split('\t', 1)
+        mode, sha = meta.split()[1], meta.split()[3]
+        if set(sha) == {'0'}:
+            w.git('update-index', '--force-remove', path, env=env)
+        else:
+            w.git('update-index', '--add', '--cacheinfo',
+                  '%s,%s,%s' % (mode, sha, path), env=env)
+    tree = w.git('write-tree', env=env)
+    os.unlink(idx)
+    sha = w.git('commit-tree', tree, '-m',
+                'more work on %s (merge of %s, conflict resolved)' % (
+                    src, dst), '-p', stip, '-p', dtip, env=env)
+    w.set_ref(src, sha)
+
+
 def ev_reset_src(w, src):
     """Force-push src back to its first parent."""
     tip = w.refs()[src]
@@ -114,8 +145,8 @@ def ev_reset_src(w, src):
 def ev_manual(w, branch, kind='commit', author=AUTHOR):
     """A developer commits on an integration branch: a plain commit on top of
     it, or (kind='merge') a merge commit of the destination branch."""
-    tip = w.refs()[branch]
-    n = int(w.git('rev-list', '--count', tip))
+    tip = w.refs().get(branch)
+    n = int(w.git('rev-list', '--count', tip)) if tip else 0
     if kind == 'commit':
         sha = w.commit_file(tip, 'manual_%s_%d' % (sanitize(branch), n),
                             'manual %d\n' % n, 'manual fix on ' + branch,
@@ -139,10 +170,19 @@ def ev_manual(w, branch, kind='commit', author=AUTHOR):
         src = branch.split('/', 2)[2]
         dst = [b for b in w.heads() if b.split('/')[0] in (
             'development', 'stabilization') and b.split('/', 1)[1] == ver][0]
+        from .world import dest_sort_key
+        prev = src
+        for d in sorted((b for b in w.heads() if b.split('/')[0] in (
+                'development', 'stabilization')), key=dest_sort_key):
+            if d == dst:
+                break
+            cand = 'w/%s/%s' % (d.split('/', 1)[1], src)
+            if cand in w.heads():
+                prev = cand
         sha = w.commit_file(w.refs()[dst], 'manual_resolution_%s' %
                             sanitize(branch), 'resolved\n',
                             'manual fix on %s (conflict resolution)' % branch,
-                            author, extra_parents=[w.refs()[src]])
+                            author, extra_parents=[w.refs()[prev]])
     elif kind == 'revert':
         # the change is not wanted on this version: a commit that brings the
         # tree of the integration branch back to its destination's tree (a
@@ -365,6 +405,7 @@ TABLE = {
     'seq': ev_seq, 'mkbranch': ev_mkbranch, 'tag': ev_tag,
     'open': ev_open, 'open_raw': ev_open_raw, 'push': ev_push,
     'amend': ev_amend, 'rebase': ev_rebase, 'reset_src': ev_reset_src,
+    'merge_dst': ev_merge_dst,
     'manual': ev_manual, 'approve': ev_approve, 'unapprove': ev_unapprove,
     'request_changes': ev_request_changes, 'participate': ev_participate,
     'comment': ev_comment, 'uncomment': ev_uncomment, 'decline': ev_decline,
